@@ -100,27 +100,40 @@ func genC20Stream(r *core.Rand, g *gen.StmtGen, long bool) c20Stream {
 		}
 		st.Expected = append(st.Expected, strings.Join(toks, " "))
 		linesOfStmt = 1
+		sp := func() string { return "   "[:r.Range(1, 3)] }
+		indent := func() string {
+			if r.Chance(1, 3) {
+				return "    "[:r.Range(1, 4)] // indented continuation / script
+			}
+			return ""
+		}
+		if i == 0 && r.Chance(1, 6) {
+			typed.WriteString(indent())
+		}
 		for ti, t := range toks {
 			typed.WriteString(t)
 			last := ti == len(toks)-1
 			switch {
 			case last && i == ns-1:
+				if r.Chance(1, 4) {
+					typed.WriteString(sp()) // blanks after the last semicolon
+				}
 				typed.WriteString("\r")
 			case last:
 				// next statement on the same line or on a new one
 				if r.Chance(1, 2) {
-					typed.WriteString(" ")
+					typed.WriteString(sp())
 					stmtsOnLine++
 				} else {
-					typed.WriteString("\r")
+					typed.WriteString("\r" + indent())
 					stmtsOnLine = 0
 				}
 			default:
 				if r.Chance(1, 6) {
-					typed.WriteString("\r")
+					typed.WriteString("\r" + indent())
 					linesOfStmt++
 				} else {
-					typed.WriteString(" ")
+					typed.WriteString(sp())
 				}
 			}
 		}
